@@ -302,3 +302,83 @@ func vLoopReadChunks(v []header, i int, size uint64) {
 	vInvariant(0 <= i && uint64(len(v)) == size && !vReadFailed)
 	vBody()
 }
+
+// ---------------------------------------------------------------------------------------------
+// Reader.Range (C01, C05, C06): the delegate runs once for every run of the requested block THAT WAS IN THE BUFFER
+// WHEN THE PASS STARTED, in order, with the reader on that run's bytes (from the header's start to the next header's
+// start, or the end of the buffer) and carrying the header's base offset; runs of other blocks are skipped. The
+// delegate may append to the buffer (that is what a size-changing merge rewrite does): what it appends is not
+// visited by this pass - a later pass picks it up - and the headers and bytes already there are not disturbed.
+
+var (
+	vRangeHeaders []header // ghost: the header list at entry
+	vRangeLen0    int      // ghost: len(buffer) at entry
+	vRangeCalls   int      // ghost: delegate calls so far
+	vRangeX0      uint32   // ghost: window and base of the last delegate call, and the buffer length at that call
+	vRangeX1      uint32
+	vRangeBase    int32
+	vRangeLenAt   int
+)
+
+//@ loop target=commit.(*Reader).Range index=0 props=C01,C05,C06
+func vLoopReaderRange(buf *Buffer, chunk Chunk, rangeindex int, rangeslice []header) {
+	n0 := len(vRangeHeaders)
+	vInvariant(-1 <= rangeindex && rangeindex < n0 && n0 <= len(buf.chunks) && vRangeLen0 <= len(buf.buffer) && len(buf.buffer) < 1<<30)
+	// the pass iterates over the header list as it was at entry ...
+	vInvariant(len(rangeslice) == n0 && vForall(0, n0, func(i int) bool {
+		return rangeslice[i].Chunk == vRangeHeaders[i].Chunk && rangeslice[i].Start == vRangeHeaders[i].Start && rangeslice[i].Value == vRangeHeaders[i].Value
+	}))
+	// ... of which the buffer's current list is an extension (in place, or moved by a reallocation)
+	vInvariant(vForall(0, n0, func(i int) bool {
+		return buf.chunks[i].Chunk == vRangeHeaders[i].Chunk && buf.chunks[i].Start == vRangeHeaders[i].Start && buf.chunks[i].Value == vRangeHeaders[i].Value
+	}))
+	vInvariant(vDistinctBacking(buf.chunks, vRangeHeaders) && vDistinctBacking(rangeslice, vRangeHeaders))
+	vInvariant(n0 == 0 || &buf.chunks[0] == &rangeslice[0] || vDistinctBacking(buf.chunks, rangeslice))
+	// headers appended meanwhile start at or after the bytes present at entry
+	vInvariant(vForall(n0, len(buf.chunks), func(i int) bool {
+		return int(buf.chunks[i].Start) >= vRangeLen0 && int(buf.chunks[i].Start) <= len(buf.buffer)
+	}))
+	// buffer invariant of the entry headers: strictly increasing starts inside the bytes present at entry
+	vInvariant(vForall(0, n0, func(i int) bool { return int(vRangeHeaders[i].Start) < vRangeLen0 }))
+	vInvariant(vForall(0, n0-1, func(i int) bool { return vRangeHeaders[i].Start < vRangeHeaders[i+1].Start }))
+	calls := vRangeCalls
+	vBody()
+	h := vRangeHeaders[rangeindex]
+	if h.Chunk != chunk {
+		vStep("runs-of-other-blocks-skipped", vRangeCalls == calls)
+	} else {
+		vStep("one-call-per-run-present-at-entry", vRangeCalls == calls+1)
+		vStep("window-starts-at-the-header", vRangeX0 == h.Start && vRangeBase == int32(h.Value))
+		if rangeindex+1 < n0 {
+			vStep("window-ends-at-the-next-header", vRangeX1 == vRangeHeaders[rangeindex+1].Start)
+		} else {
+			vStep("last-window-ends-with-the-bytes-present", int(vRangeX1) >= vRangeLen0 && int(vRangeX1) <= vRangeLenAt)
+		}
+	}
+}
+
+//@ lemma props=C01,C05,C06
+func vLemmaReaderRange(buf []byte, chunks []header, chunk Chunk, more []byte, h header) {
+	n0, len0 := len(chunks), len(buf)
+	vAssume(n0 < 1<<20 && len0 < 1<<29 && len(more) < 1<<20)
+	// buffer invariant: header starts are strictly increasing positions inside the bytes written
+	vAssume(vForall(0, n0, func(i int) bool { return int(chunks[i].Start) < len0 }))
+	vAssume(vForall(0, n0-1, func(i int) bool { return chunks[i].Start < chunks[i+1].Start }))
+	b := &Buffer{buffer: buf, chunks: chunks}
+	vRangeHeaders = append([]header(nil), chunks...)
+	vRangeLen0, vRangeCalls = len0, 0
+	r := NewReader()
+	r.Range(b, chunk, func(rd *Reader) {
+		vRangeCalls++
+		vRangeX0, vRangeX1, vRangeBase, vRangeLenAt = rd.x0, rd.x1, rd.Offset, len(b.buffer)
+		vAssert("the-same-reader-rewound", rd == r && rd.last == 0 && rd.start == rd.Offset && rd.parent == b)
+		vAssert("reader-is-on-the-window", rd.x0 <= rd.x1 && int(rd.x1) <= len(b.buffer) && len(rd.buffer) == int(rd.x1-rd.x0) &&
+			(len(rd.buffer) == 0 || &rd.buffer[0] == &b.buffer[rd.x0]))
+		if vNondet[bool]() { // the delegate appends a run (header + bytes) to the parent buffer
+			vAssume(int(h.Start) == len(b.buffer) && len(b.buffer)+len(more) < 1<<30 && len(b.chunks) < 1<<20)
+			b.chunks = append(b.chunks, h)
+			b.buffer = append(b.buffer, more...)
+		}
+	})
+	vAssert("entry-headers-kept", vForall(0, n0, func(i int) bool { return b.chunks[i].Start == vRangeHeaders[i].Start }))
+}
